@@ -12,12 +12,13 @@ from lib.terms import g_str, g_list
 from lib import terms as TM
 
 ID = 'C16'
-IMPORTS = ['Lang.Ast', 'Lang.Front', 'Lang.Denote']
+IMPORTS = ['Lang.Ast', 'Lang.Front', 'Lang.Denote', 'Lang.RunC16']
 THEOREMS = ['C16_quoted_atom_roundtrip', 'C16_quoted_atom_in_context', 'C16_quoted_atom_literal', 'C16_plain_atom_token',
             'C16_numeral_token', 'C16_numeral_leading_zeros', 'C16_numeral_roundtrip', 'C16_variable_token',
             'C16_list_pattern_folds', 'C16_list_literal', 'C16_anon_fresh', 'C16_anon_name_inj', 'C16_anon_not_source',
             'C16_literal_denotation', 'C16_makelist_listpair_chain', 'C16_to_python_literal', 'C16_to_python_compiled_literal',
-            'C16_api_term_unifies', 'C16_atom_identity', 'C16_atom_unify_by_name']
+            'C16_api_term_unifies', 'C16_atom_identity', 'C16_atom_unify_by_name',
+            'C16_file_bytes_roundtrip', 'C16_file_entry_point', 'C16_file_encoding_injective', 'C16_file_ascii_bytes']
 RULE = ('programs of facts fact_i(L, V1..Vn), rules body_i(R, V1..Vn) :- R = L and at_j(A) for random literals L: plain and quoted '
         'atoms (spaces, quotes, line breaks, tabs, non-ASCII incl. astral and combining code points, digits-only, empty, [] ), '
         'integers with leading zeros and bignums, named and anonymous variables, compound terms with plain, quoted and operator '
@@ -467,7 +468,7 @@ def builtin_corpus():
 def model_expr(case):
     envs = g_list([g_list(['(%s, %s)' % (g_str(v), ast_io.g_sterm(t)) for v, t in env.items()]) for env in case['envs']])
     calls = g_list(['(%s, %s)' % ('true' if e else 'false', g_str(n)) for e, n in case['atom_calls']])
-    return '(run_c16 %s %s %s)' % (g_str(case['src']), envs, calls)
+    return '(run_c16b %s %s %s)' % (g_str(case['src']), envs, calls)
 
 _UNSPEC = ['unspecified']
 
@@ -960,7 +961,19 @@ def _unnumber(t):
 def compare(case, io, mo):
     if not isinstance(io, dict):
         return None
+    mo, fp = mo
     mo, mlits, matoms = mo
+    # the UTF-8 bytes of the text as the model encodes it (Lang/Utf8.v; C16_file_bytes_roundtrip is about this encoder)
+    # are the bytes Python's codec produces (what the file entry points were given), and the model decodes them back
+    try:
+        b = case['src'].encode('utf8')
+        h = 0
+        for x in b:
+            h = (h * 257 + x + 1) % 1000000007
+        if fp != [len(b), h, 1]:
+            return 'UTF-8: the model encodes the source text to (length, hash, decodes back) %r, Python to %r' % (fp, [len(b), h, 1])
+    except UnicodeEncodeError:
+        pass
     if io.get('atom_calls') is not None and io['atom_calls'] != matoms:
         return 'atom identity: the calls %r return the objects (numbered by creating call) %r, the atom table model gives %r' % (case['atom_calls'], io['atom_calls'], matoms)
     if mo[0] != 'ok':
